@@ -230,6 +230,8 @@ def callset_program(rng, seed):
              'fallback': None, 'run_original': False, 'substitute': ('none',), 'nested': [], 'alias': al}
         if '{p}' in al:
             d['resolver'] = 0
+            if rng.random() < 0.5:
+                d['fallback'] = ['never.recorded.alias']      # a fallback list kept by the decorator across calls
         decls.append(d)
     if rng.random() < 0.25:
         for d in decls:
